@@ -8,6 +8,7 @@
 #ifndef STATEMODEL_H
 #define STATEMODEL_H
 
+#include <BayesFilters/SkipFlag.h>
 #include <BayesFilters/ExogenousModel.h>
 #include <BayesFilters/Skippable.h>
 #include <BayesFilters/StateProcess.h>
@@ -60,7 +61,7 @@ private:
     /**
      * Skip status.
      */
-    bool skip_ = false;
+    SkipFlag skip_;
 
     /**
      * Exogenous model.
